@@ -12,8 +12,10 @@ import (
 	"fmt"
 	"math/big"
 	"os"
+	"runtime/pprof"
 	"strconv"
 	"strings"
+	"time"
 
 	"verif/harness/internal/vh"
 )
@@ -149,6 +151,11 @@ type counts struct {
 
 func main() {
 	a := vh.ParseArgs()
+	if pf := os.Getenv("C18_PROF"); pf != "" {
+		f, _ := os.Create(pf)
+		pprof.StartCPUProfile(f)
+		defer pprof.StopCPUProfile()
+	}
 	res := vh.NewResult("C18", a.Seed, a.Tier)
 	res.Rule = "hashcom: random/boundary (empty, 1 byte, long) messages × keys × witnesses, every case with single-bit changes of key/message/witness/commitment, truncations, extensions and message/witness boundary shifts; pedersencom (k256, BLS12-381 G1, P-256, edwards25519), intcom (cached safe-prime moduli), indcpacom over ElGamal (k256, BLS12-381 G1): random sequences of homomorphic operations on tracked openings (messages 0, 1, q-1 and random), per program single-component changes of message/witness/commitment/key, trapdoor keys with equivocation verified under the exported key; key extraction from pairs of equal/different transcripts. non-trivial = the case reached an Open / commitment computation; distinct by canonical case text"
 	r := &runner{a: a, res: res}
@@ -168,20 +175,26 @@ func main() {
 		return
 	}
 
+	t0 := time.Now()
+	lap := func(what string) {
+		r.flush()
+		res.Note("%s: %.1fs", what, time.Since(t0).Seconds())
+		t0 = time.Now()
+	}
 	for i := 0; i < c.hash; i++ {
 		hashcomCase(r, i)
 	}
-	r.flush()
+	lap("hashcom")
 	pedersenAll(r, c)
-	r.flush()
+	lap("pedersencom")
 	elgamalAll(r, c)
-	r.flush()
+	lap("indcpacom")
 	intcomAll(r, c)
-	r.flush()
+	lap("intcom")
 	for i := 0; i < c.ext; i++ {
 		extractCase(r, i)
 	}
-	r.flush()
+	lap("extraction")
 	res.Write(a.Out)
 }
 
